@@ -89,6 +89,18 @@ def judge(case, real, extra, cache):
     # traceback exposure (the traceback text is a generated input: the marker, or any text of >= 8
     # characters found in what follows the head once the innocent 500 body is taken out; shorter texts
     # are covered by the exact comparison of the 500's body below)
+    try:
+        (case["cfg"]["ident"] or "server").encode("latin-1")
+    except UnicodeEncodeError:
+        # no response head can be built at all (the Server field cannot be encoded), the ladder's 500
+        # included: what is left of the property is containment -- nothing escapes service(), the
+        # connection is wound up (marked for closing, requests cleared), the iterable closed once (above)
+        if real["esc"] != "none":
+            out.append(("exception escaped HTTPChannel.service() (no head can be built: ident is not latin-1): no close decision, request never popped",
+                        "none", real["esc"], None))
+        elif real["close"] != "1":
+            out.append(("no head can be built (ident is not latin-1) and the connection is not marked for closing", "close", "keep", None))
+        return out
     tbtext = case["cfg"]["tb"]
     if not case["cfg"]["expose"]:
         k = wire.find(b"\r\n\r\n")
